@@ -32,6 +32,9 @@ type LogCase struct {
 	// Flat lists the stages whose label filter is written without parentheses (mixed and/or
 	// chains as users type them); the tree in Q is the right-nested one qryn's grammar builds.
 	Flat []int `json:"flat,omitempty"`
+	// Paren lists {stage, style}: label filters printed with extra parentheses
+	// (refeval.ParenFilterString) that do not change their reading.
+	Paren [][2]int `json:"paren,omitempty"`
 	// Shape names the pattern of a shaped pipeline (GenShapedStages); informational.
 	Shape string `json:"shape,omitempty"`
 }
@@ -47,6 +50,9 @@ func genLog(rt *rapid.T) LogCase {
 	switch k := rapid.IntRange(0, 9).Draw(rt, "pipeline-kind"); {
 	case k < 2:
 		c.Q.Stages, c.Shape = GenShapedStages(rt, &c.DB)
+	case k == 3:
+		c.Q.Stages, c.Paren, c.Q.Matchers = GenDropParenStages(rt, &c.DB, c.Q.Matchers)
+		c.Shape = "drop-then-paren-filter"
 	case k == 2:
 		// filter on a label some selected streams lack: selector on a label (nearly) all carry
 		name := rapid.SampledFrom([]string{"app", "env"}).Draw(rt, "ab-sel")
@@ -144,9 +150,13 @@ func rowsKey(rows []refeval.Row) string {
 
 // QueryText prints the query; the label filters of the stages listed in flat are printed
 // without parentheses (refeval.FlatFilterString).
-func QueryText(e *refeval.Expr, flat []int) string {
-	if len(flat) == 0 {
+func QueryText(e *refeval.Expr, flat []int, paren [][2]int) string {
+	if len(flat) == 0 && len(paren) == 0 {
 		return e.String()
+	}
+	style := map[int]int{}
+	for _, p := range paren {
+		style[p[0]] = p[1]
 	}
 	isFlat := map[int]bool{}
 	for _, i := range flat {
@@ -160,6 +170,8 @@ func QueryText(e *refeval.Expr, flat []int) string {
 	for i, st := range e.Stages {
 		if isFlat[i] && st.Kind == refeval.KLabelFilter {
 			sel += " | " + refeval.FlatFilterString(st.Filter)
+		} else if sty, ok := style[i]; ok && st.Kind == refeval.KLabelFilter {
+			sel += " | " + refeval.ParenFilterString(st.Filter, sty)
 		} else {
 			sel += " " + st.String()
 		}
@@ -247,6 +259,51 @@ func tagFilters(o *evid.Obs, c *LogCase) {
 			}
 		}
 		walk(st.Filter)
+	}
+}
+
+// tagDropParen: does the stored value of a dropped label decide a later filter for some
+// selected stream (the filter on the stored labels answers differently than on the labels
+// drop left)?
+func tagDropParen(o *evid.Obs, c *LogCase) {
+	dropped := map[string]bool{}
+	parser := false
+	for _, st := range c.Q.Stages {
+		switch st.Kind {
+		case refeval.KJSON, refeval.KRegexp:
+			parser = true
+		case refeval.KDrop:
+			for _, p := range st.Params {
+				if !p.HasVal {
+					dropped[p.Name] = true
+				}
+			}
+		case refeval.KLabelFilter:
+			if len(dropped) == 0 {
+				continue
+			}
+			decides := false
+			for _, s := range c.DB.Ref() {
+				if ok, err := refeval.MatchSeries(c.Q.Matchers, s.Labels, &refeval.Flags{}); err != nil || !ok {
+					continue
+				}
+				left := map[string]string{}
+				for k, v := range s.Labels {
+					if !dropped[k] {
+						left[k] = v
+					}
+				}
+				a, _ := refeval.EvalFilter(st.Filter, s.Labels, &refeval.Flags{})
+				b, _ := refeval.EvalFilter(st.Filter, left, &refeval.Flags{})
+				decides = decides || a != b
+			}
+			if decides {
+				o.Tag("stored-value-of-dropped-label-decides-filter")
+				if parser {
+					o.Tag("stored-value-of-dropped-label-decides-filter:parser-before")
+				}
+			}
+		}
 	}
 }
 
@@ -360,7 +417,7 @@ func predLog(c LogCase, o *evid.Obs) error {
 		o.Discard("invalid-db")
 		return nil
 	}
-	text := QueryText(&c.Q, c.Flat)
+	text := QueryText(&c.Q, c.Flat, c.Paren)
 	from, to := c.W.FromNs(), c.W.ToNs()
 	ref, err := refeval.EvalLogSQL(&c.Q, c.DB.Ref(), from, to, c.Forward)
 	if err != nil {
@@ -370,6 +427,9 @@ func predLog(c LogCase, o *evid.Obs) error {
 	TagQuery(o, &c.Q)
 	if c.Shape == "absent-label-filter" {
 		o.Tag("shape:absent-label-filter")
+	} else if c.Shape == "drop-then-paren-filter" {
+		o.Tag("shape:drop-then-paren-filter")
+		tagDropParen(o, &c)
 	} else if c.Shape != "" {
 		o.Tag("shape:filter-sep-rewrite", "shape:"+c.Shape)
 	}
